@@ -116,12 +116,69 @@ def _exists(p):
     return _orig_exists(p)
 
 
+def _note(ev):
+    rec = getattr(_tls, 'rec', None)
+    if rec is not None and not getattr(_tls, 'busy', False):
+        _tls.busy = True
+        try:
+            rec.add(ev)
+        finally:
+            _tls.busy = False
+
+
+class _WProxy:
+    """a file opened for writing by a traced thread: every write()/close() is a yield point of the scheduler (a `write`
+    raises no audit event, and an in-place writer is only visible between `open(...,'w')` and its writes)"""
+    def __init__(self, f, path):
+        object.__setattr__(self, '_f', f)
+        object.__setattr__(self, '_p', path)
+
+    def write(self, data):
+        _note(('write', self._p))
+        return self._f.write(data)
+
+    def writelines(self, lines):
+        _note(('write', self._p))
+        return self._f.writelines(lines)
+
+    def close(self):
+        if not self._f.closed:
+            _note(('write', self._p))
+        return self._f.close()
+
+    def __enter__(self):
+        return self
+
+    def __exit__(self, *a):
+        self.close()
+        return False
+
+    def __iter__(self):
+        return iter(self._f)
+
+    def __getattr__(self, n):
+        return getattr(self._f, n)
+
+
+import builtins
+_orig_open = builtins.open
+
+
+def _open(file, mode='r', *a, **k):
+    f = _orig_open(file, mode, *a, **k)
+    if getattr(_tls, 'rec', None) is not None and not getattr(_tls, 'busy', False) and isinstance(mode, str) \
+            and any(ch in mode for ch in 'wax+') and isinstance(file, (str, bytes, os.PathLike)):
+        return _WProxy(f, os.fspath(file))
+    return f
+
+
 def install():
     """the audit hook cannot be removed: it is installed once and does nothing for threads without a recorder"""
     if not _STATE['installed']:
         sys.addaudithook(_hook)
         os.path.isfile = _isfile
         os.path.exists = _exists
+        builtins.open = _open
         _STATE['installed'] = True
 
 
@@ -315,6 +372,8 @@ def canon_trace(events, roles, cwd, zone_abs, preexisting):
     for ev in events:
         k = ev[0]
         cp = lambda x: canon_path(x, roles, cwd, zone_abs, preexisting)     # noqa
+        if k == 'write':
+            continue                                      # yield point only (no audit event, no model action of its own)
         if k == 'exists':
             out.append(['exists', cp(ev[1])])
         elif k == 'isfile':
@@ -888,7 +947,7 @@ def _explore_child(spec_path):
                     raw_i[tid] += 1
                     if ev is None:
                         continue
-                    keep = not (ev[0] == 'open' and (isinstance(ev[1], int) or ev[2] is None))
+                    keep = not (ev[0] == 'write' or (ev[0] == 'open' and (isinstance(ev[1], int) or ev[2] is None)))
                     if keep:
                         vis.append(tid)
                 s.visible_order = vis
